@@ -203,6 +203,18 @@ def run_impl(case):
                 diffs[name] = [repr(a)[:200], repr(b)[:200]]
         out["nqueries"] = nq
         out["diffs"] = diffs
+        # the constructor takes its own copy of the scores: sorted ndarrays handed over and overwritten by the caller
+        # afterwards leave the object's answers unchanged
+        gs_, fs_ = np.sort(g), np.sort(f)
+        fs5 = FraudScores(genuines=gs_, frauds=fs_, nb_easy_genuines=case["eg"], nb_easy_frauds=case["ef"], score_class=sc_arg)
+        shared = bool((len(gs_) and np.shares_memory(fs5.pos, gs_)) or (len(fs_) and np.shares_memory(fs5.neg, fs_)))
+        before5 = [int(v) for v in fs5.cm(thr).matrix.reshape(-1)]
+        if len(gs_):
+            gs_[:] = 0.5
+        if len(fs_):
+            fs_[:] = 0.5
+        after5 = [int(v) for v in fs5.cm(thr).matrix.reshape(-1)]
+        out["caller_buffer"] = {"shared": shared, "changed": before5 != after5}
         # setters alias too
         fs2 = FraudScores(genuines=g, frauds=f, score_class=sc_arg)
         newg, newf = np.array([0.25, 0.5]), np.array([0.125])
@@ -249,6 +261,17 @@ def run_impl(case):
     except ValueError:
         fl_out["raised"] = "ValueError"
     out["from_labels"] = fl_out
+    # boolean label arrays, both choices of the genuine label
+    bool_out = []
+    if len(scores_all) and not any(o_ for o_ in [out.get("raised")]):
+        lab_b = (labels == case["gl"])
+        for gl_b in (True, False):
+            try:
+                fb = FraudScores.from_labels(lab_b, scores_all, genuine_label=gl_b)
+                bool_out.append([bool(gl_b), [enc(float(v)) for v in fb.pos], [enc(float(v)) for v in fb.neg]])
+            except ValueError:
+                bool_out.append([bool(gl_b), "ValueError"])
+    out["from_labels_bool"] = bool_out
 
     def call(fn, arg):
         try:
@@ -319,6 +342,21 @@ def oracle(case, res):
             fails.append(("C19/from_labels/split", f"from_labels(genuine_label={case['gl']}) did not split by the genuine label"))
         if fl_["score_class"] != want_sc or fl_["equal_class"] != "pos" or fl_["easy"] != [case["eg"], case["ef"]]:
             fails.append(("C19/from_labels/config", "from_labels lost score_class / easy counts"))
+    for item in r.get("from_labels_bool") or []:
+        if item[1] == "ValueError":
+            if not bad:
+                fails.append(("C19/from_labels/bool", f"from_labels with boolean labels and genuine_label={item[0]} raised"))
+            continue
+        gl_b, pb, nb_ = item
+        wp, wn = (sorted(g), sorted(f)) if gl_b else (sorted(f), sorted(g))
+        if [F(v) for v in pb] != wp or [F(v) for v in nb_] != wn:
+            fails.append(("C19/from_labels/bool", f"from_labels with boolean labels and genuine_label={gl_b} did not take the samples "
+                                                  f"labelled {gl_b} as genuines"))
+    cb = r.get("caller_buffer")
+    if cb and (cb["shared"] or cb["changed"]):
+        fails.append(("C19/caller-buffer", "FraudScores built from already sorted ndarrays keeps the caller's arrays: "
+                                           + ("its score arrays share memory with them" if cb["shared"] else "")
+                                           + ("; its confusion matrices changed when the caller overwrote them" if cb["changed"] else "")))
     # translations
     tr = r["tr"]
     if tr["d2b"]["genuine"] != "pos" or tr["d2b"]["fraud"] != "neg" or tr["d2b_member"] != {"pos": "pos", "neg": "neg"}:
